@@ -10,15 +10,20 @@ Proved here, for every Unicode text without the constructs C02 excludes:
 * `lexical_fault_rejected`: an unterminated quote or comment, an undefined backslash pair, a
   misplaced token always make the parse fail with a non-empty error (it is never swallowed).
 
-Not proved (kept visible below): `syntax_error_position`.
+* `syntax_error_position` (and one named theorem per kind of fault): for a text with a single
+  lexical or syntactic fault the first error line names the file, the class of the fault and the
+  line and column, computed from the text alone, of the offending token, backslash or opener.
 -/
 import Goyang.Props.C02
 import Goyang.Lemmas.Positions
+import Goyang.Spec.Fault
+import Goyang.Lemmas.ErrPosFault
 
 namespace Goyang.Props.C16
 open Goyang.Spec.Parse Goyang.Model.Parse
 open Goyang.Props.C02 (utf8 encForest)
 open Goyang.Lemmas.Positions (TruePos)
+open Goyang.Spec.Fault
 
 /-- The reference reader gives every statement the position of its keyword token, computed from the
 text alone: line = 1 + line feeds before it, column = 1 + characters since the last line feed. -/
@@ -91,30 +96,137 @@ theorem lexical_fault_rejected (file : List UInt8) (t : List Char) (ha : Admissi
   rw [h] at hr
   exact hr
 
-/-! ## not proved
+/-! ## C16, second sentence: a syntax error names the position of the offending token
 
-```
-theorem syntax_error_position (file : List UInt8) (t : List Char) (ha : Admissible t)
+`Goyang.Spec.Fault` says, over the reference reader alone, what a text with a single lexical or
+syntactic fault is (`SingleFault t k off`: reading the tokens by the statement grammar nothing is
+wrong before offset `off`, and there stands an unexpected `}` / a token that is neither `;` nor `{`
+behind an argument / a quoted string where a keyword must stand / an undefined backslash pair in an
+argument outside a `pattern` statement / the opener of a quote or comment that is never closed).
+The theorems below say: the model rejects such a text and its FIRST error line — which is a
+positioned one — carries the file name, the class of the fault and exactly the line and column,
+computed from the text alone (`lineOf t off`, `colOf t off`), of the offending token, backslash or
+opener.
+
+Proof (`Goyang/Lemmas/`): `HeadSim` (two token sources in step make the parser write the same
+first error line), `LexKeepsH` + `LexHead` (`ground_head`: the line the lexer model writes first at
+an unterminated quote/comment or an undefined pair is the line `lexErr` computes from the text),
+`ErrPos` (`first_error`: first error line of `parseText` = first error line of the parser model
+over the reference reader's tokens), `ListFault` (`stuck_sound`: over those tokens the first error
+line is the one `Stuck` names), `FaultNL`/`LexErrSpec`/`DqBound`/`StuckOff` (the line feed `newLexer`
+appends changes nothing), `ErrPosFault` (assembly).
+
+What "single" excludes (each would be a second fault, and the model then reports that one first):
+an undefined backslash pair in what the one-token look-ahead of string concatenation reads behind a
+quoted token at the fault (`Goyang.Spec.Fault.lookahead`), and an undefined pair inside a
+double-quoted string that is also unterminated.  The end-of-input reports `unexpected EOF` and
+`missing N closing braces` are outside the claim, as the property says. -/
+
+/-- the class of error line for a fault of kind `k` -/
+abbrev classOf : FaultKind → Goyang.Model.Lex.ErrClass := Goyang.Lemmas.ListFault.faultClass
+
+/-- the first error line that prints a `line:col` -/
+def firstPositioned (msgs : List Goyang.Model.Lex.ErrLine) : Option Goyang.Model.Lex.ErrLine :=
+  msgs.find? (fun e => e.pos.isSome)
+
+/-- For a text whose quotes and comments are closed, `AdmissibleScan` is `Admissible`; in general it
+is the stronger of the two. -/
+theorem admissibleScan_of_tokenize (t : List Char) (toks : List PTok) (h : tokenize t = some toks) :
+    AdmissibleScan t = Admissible t := by
+  unfold AdmissibleScan Admissible
+  rw [h, Goyang.Lemmas.ErrPosFault.scanStop_of_tokenize t toks h]
+
+theorem admissible_of_admissibleScan (t : List Char) (h : AdmissibleScan t = true) : Admissible t = true := by
+  cases ht : tokenize t with
+  | none => unfold Admissible; rw [ht]
+  | some toks => rw [← admissibleScan_of_tokenize t toks ht]; exact h
+
+/-- **C16, second sentence.**  For every Unicode text with a single lexical or syntactic fault of
+kind `k` at character offset `off` (the tokens in front of the point where the tokenizer stops
+being free of the constructs C02 excludes): generic parsing rejects the text, and the first error
+line — the first positioned one in particular — names the file, the class of the fault and the
+line and column (1-based, in characters, computed from the text alone) of the offending token,
+backslash or opener. -/
+theorem syntax_error_position (file : List UInt8) (t : List Char) (ha : AdmissibleScan t = true)
     (k : FaultKind) (off : Nat) (h : SingleFault t k off) :
-    ∃ e rest, parseText file (utf8 t) = .rejected (… e …) ∧ firstPositioned … = e ∧
-      e.pos = some (lineOf t off, colOf t off) ∧ e.cls = classOf k
-```
-(for a text with a single lexical or syntactic fault of the listed kinds — unexpected `}`, missing
-`;`/`{`, a quoted string where a keyword must stand, an undefined backslash pair, an unterminated
-quote or comment — the first positioned error line names the position, computed from the text
-alone, of the offending token, backslash or opener).
+    ∃ e rest, parseText file (utf8 t) = .rejected (e :: rest) ∧ firstPositioned (e :: rest) = some e ∧
+      e.file = file ∧ e.pos = some (((lineOf t off : Nat) : Int), ((colOf t off : Nat) : Int)) ∧ e.cls = classOf k := by
+  obtain ⟨msgs, h1, h2⟩ := Goyang.Lemmas.ErrPosFault.single_fault_first_error file t k off ha h
+  rw [Goyang.Props.C02.utf8_eq] at h1
+  cases msgs with
+  | nil => cases h2
+  | cons e rest =>
+    simp only [List.head?_cons, Option.some.injEq] at h2
+    refine ⟨e, rest, h1, ?_, ?_, ?_, ?_⟩
+    · unfold firstPositioned
+      rw [List.find?_cons, h2]
+      rfl
+    · rw [h2]; rfl
+    · rw [h2]; rfl
+    · rw [h2]; rfl
 
-What is missing: the simulation of `Goyang/Lemmas/` follows implementation and reference reader in
-lockstep only up to the first error written (`Sim`, `Outcome`: "an error has been written"); it does
-not say *which* error line.  The ingredients are there — the lexer lemmas give `line`/`col` of the
-cursor against `lineAfter`/`colAfter` of the text read, the list source of `Lemmas/ListSrc.lean`
-already carries the exact position of the first undefined pair (`escErr`, `firstBadOff`), and
-`nextStatement_rbrace` gives the position of a stray `}` — but the relation `Sim` would have to
-carry "both error lists have the same head", which was not done.  This part of C16 rests on the
-correspondence run: the single-fault injector (exact position of the first positioned error against
-`spec.pos`) and, on every rejected text, the oracle `spec.marks` (every positioned error stands at a
-token / `}` / undefined-pair backslash / unterminated opener computed by `Goyang.Spec.Parse.marks`).
--/
+/-- a text whose quotes and comments are closed: `Admissible` is enough -/
+theorem syntax_error_position_tokens (file : List UInt8) (t : List Char) (ha : Admissible t = true)
+    (k : FaultKind) (off : Nat) (toks : List PTok) (ht : tokenize t = some toks) (h : SingleFault t k off) :
+    ∃ e rest, parseText file (utf8 t) = .rejected (e :: rest) ∧ firstPositioned (e :: rest) = some e ∧
+      e.file = file ∧ e.pos = some (((lineOf t off : Nat) : Int), ((colOf t off : Nat) : Int)) ∧ e.cls = classOf k :=
+  syntax_error_position file t (by rw [admissibleScan_of_tokenize t toks ht]; exact ha) k off h
+
+/-- an unexpected `}` between two top-level statements: `unexpected }` at the brace -/
+theorem syntax_error_position_rbrace (file : List UInt8) (t : List Char) (ha : Admissible t = true)
+    (toks : List PTok) (ht : tokenize t = some toks) (off : Nat)
+    (h : Stuck t .top toks (.fault .unexpectedRBrace off)) :
+    ∃ e rest, parseText file (utf8 t) = .rejected (e :: rest) ∧ firstPositioned (e :: rest) = some e ∧
+      e.file = file ∧ e.pos = some (((lineOf t off : Nat) : Int), ((colOf t off : Nat) : Int)) ∧
+      e.cls = .unexpectedRBrace :=
+  syntax_error_position_tokens file t ha .unexpectedRBrace off toks ht ⟨toks, ht, h⟩
+
+/-- a missing `;` or `{`: `syntax error, expected ';' or '{'` at the token standing in its place -/
+theorem syntax_error_position_missing_semicolon (file : List UInt8) (t : List Char) (ha : Admissible t = true)
+    (toks : List PTok) (ht : tokenize t = some toks) (off : Nat)
+    (h : Stuck t .top toks (.fault .missingSemi off)) :
+    ∃ e rest, parseText file (utf8 t) = .rejected (e :: rest) ∧ firstPositioned (e :: rest) = some e ∧
+      e.file = file ∧ e.pos = some (((lineOf t off : Nat) : Int), ((colOf t off : Nat) : Int)) ∧
+      e.cls = .expectedSemiOrBrace :=
+  syntax_error_position_tokens file t ha .missingSemi off toks ht ⟨toks, ht, h⟩
+
+/-- a quoted string where a keyword must stand: `keyword token not an unquoted string` at its opening quote -/
+theorem syntax_error_position_quoted_keyword (file : List UInt8) (t : List Char) (ha : Admissible t = true)
+    (toks : List PTok) (ht : tokenize t = some toks) (off : Nat)
+    (h : Stuck t .top toks (.fault .quotedKeyword off)) :
+    ∃ e rest, parseText file (utf8 t) = .rejected (e :: rest) ∧ firstPositioned (e :: rest) = some e ∧
+      e.file = file ∧ e.pos = some (((lineOf t off : Nat) : Int), ((colOf t off : Nat) : Int)) ∧
+      e.cls = .keywordNotUnquoted :=
+  syntax_error_position_tokens file t ha .quotedKeyword off toks ht ⟨toks, ht, h⟩
+
+/-- an undefined backslash pair in a double-quoted argument: `invalid escape sequence` at the backslash -/
+theorem syntax_error_position_bad_escape (file : List UInt8) (t : List Char) (ha : Admissible t = true)
+    (toks : List PTok) (ht : tokenize t = some toks) (off : Nat)
+    (h : Stuck t .top toks (.fault .badEscape off)) :
+    ∃ e rest, parseText file (utf8 t) = .rejected (e :: rest) ∧ firstPositioned (e :: rest) = some e ∧
+      e.file = file ∧ e.pos = some (((lineOf t off : Nat) : Int), ((colOf t off : Nat) : Int)) ∧
+      e.cls = .invalidEscape :=
+  syntax_error_position_tokens file t ha .badEscape off toks ht ⟨toks, ht, h⟩
+
+/-- an unterminated single- or double-quoted string: `missing closing '` / `"` at the opening quote -/
+theorem syntax_error_position_unterminated_string (file : List UInt8) (t : List Char) (ha : AdmissibleScan t = true)
+    (off : Nat) (h : SingleFault t .unterminatedSQuote off ∨ SingleFault t .unterminatedDQuote off) :
+    ∃ e rest, parseText file (utf8 t) = .rejected (e :: rest) ∧ firstPositioned (e :: rest) = some e ∧
+      e.file = file ∧ e.pos = some (((lineOf t off : Nat) : Int), ((colOf t off : Nat) : Int)) ∧
+      (e.cls = .missingSQuote ∨ e.cls = .missingDQuote) := by
+  rcases h with h | h
+  · obtain ⟨e, rest, h1, h2, h3, h4, h5⟩ := syntax_error_position file t ha _ off h
+    exact ⟨e, rest, h1, h2, h3, h4, Or.inl h5⟩
+  · obtain ⟨e, rest, h1, h2, h3, h4, h5⟩ := syntax_error_position file t ha _ off h
+    exact ⟨e, rest, h1, h2, h3, h4, Or.inr h5⟩
+
+/-- an unterminated block comment: `missing closing */` at the `/` of its opener -/
+theorem syntax_error_position_unterminated_comment (file : List UInt8) (t : List Char) (ha : AdmissibleScan t = true)
+    (off : Nat) (h : SingleFault t .unterminatedComment off) :
+    ∃ e rest, parseText file (utf8 t) = .rejected (e :: rest) ∧ firstPositioned (e :: rest) = some e ∧
+      e.file = file ∧ e.pos = some (((lineOf t off : Nat) : Int), ((colOf t off : Nat) : Int)) ∧
+      e.cls = .missingCommentEnd :=
+  syntax_error_position file t ha _ off h
 
 /-! ## the hypotheses are satisfiable -/
 
@@ -128,5 +240,97 @@ example : Admissible Goyang.Props.C02.exampleText = true := by decide
 
 /-- a rejected text (`a {`): the hypothesis of `lexical_fault_rejected` holds of it -/
 example : parse ['a', ' ', '{'] = none ∧ Admissible ['a', ' ', '{'] = true := ⟨by rfl, by decide⟩
+
+/-! ### single faults: each kind has a witness, and the model reports the stated position on it -/
+
+/-- `a ; }` : the stray `}` stands at offset 4 = line 1, column 5 -/
+example : SingleFault ['a', ' ', ';', ' ', '}'] .unexpectedRBrace 4 :=
+  ⟨[⟨.unq ['a'], 0⟩, ⟨.semi, 2⟩, ⟨.rbrace, 4⟩], by rfl,
+    .later .top ⟨.unq ['a'], 0⟩ [⟨.semi, 2⟩, ⟨.rbrace, 4⟩] ⟨['a'], none, 1, 1, []⟩ [⟨.rbrace, 4⟩] _
+      (by decide) (by decide) (by rfl) (.rbrace ⟨.rbrace, 4⟩ [] rfl)⟩
+example : Admissible ['a', ' ', ';', ' ', '}'] = true := by decide
+set_option maxRecDepth 8000 in
+example : parseText [102] (utf8 ['a', ' ', ';', ' ', '}']) =
+    .rejected [⟨[102], some (1, 5), .unexpectedRBrace⟩] := by rfl
+
+/-- `a b c ;` : `c` stands where `;` or `{` must stand, offset 4 -/
+example : SingleFault ['a', ' ', 'b', ' ', 'c', ' ', ';'] .missingSemi 4 :=
+  ⟨[⟨.unq ['a'], 0⟩, ⟨.unq ['b'], 2⟩, ⟨.unq ['c'], 4⟩, ⟨.semi, 6⟩], by rfl,
+    .first .top _ _ _ (by decide) (by decide)
+      (.noTerm ⟨.unq ['a'], 0⟩ ['a'] [⟨.unq ['b'], 2⟩, ⟨.unq ['c'], 4⟩, ⟨.semi, 6⟩] (some ['b']) ⟨.unq ['c'], 4⟩
+        [⟨.semi, 6⟩] rfl (by rfl) (by decide) (by decide) (fun h => by cases h))⟩
+example : Admissible ['a', ' ', 'b', ' ', 'c', ' ', ';'] = true := by decide
+set_option maxRecDepth 8000 in
+example : ∃ rest, parseText [102] (utf8 ['a', ' ', 'b', ' ', 'c', ' ', ';']) =
+    .rejected (⟨[102], some (1, 5), .expectedSemiOrBrace⟩ :: rest) := ⟨_, by rfl⟩
+
+/-- `"a" b;` : a quoted string where the keyword must stand, offset 0 -/
+example : SingleFault ['"', 'a', '"', ' ', 'b', ';'] .quotedKeyword 0 :=
+  ⟨[⟨.dq [.lit 'a'], 0⟩, ⟨.unq ['b'], 4⟩, ⟨.semi, 5⟩], by rfl,
+    .first .top _ _ _ (by decide) (by decide)
+      (.keyword ⟨.dq [.lit 'a'], 0⟩ [⟨.unq ['b'], 4⟩, ⟨.semi, 5⟩] rfl (by decide))⟩
+example : Admissible ['"', 'a', '"', ' ', 'b', ';'] = true := by decide
+set_option maxRecDepth 8000 in
+example : ∃ rest, parseText [102] (utf8 ['"', 'a', '"', ' ', 'b', ';']) =
+    .rejected (⟨[102], some (1, 1), .keywordNotUnquoted⟩ :: rest) := ⟨_, by rfl⟩
+
+/-- `a "x\q";` : the undefined pair `\q` begins at offset 4 -/
+example : SingleFault ['a', ' ', '"', 'x', '\\', 'q', '"', ';'] .badEscape 4 :=
+  ⟨[⟨.unq ['a'], 0⟩, ⟨.dq [.lit 'x', .esc 'q'], 2⟩, ⟨.semi, 7⟩], by rfl,
+    .first .top _ _ _ (by decide) (by decide)
+      (.escape ⟨.unq ['a'], 0⟩ ['a'] [⟨.dq [.lit 'x', .esc 'q'], 2⟩, ⟨.semi, 7⟩] ⟨.dq [.lit 'x', .esc 'q'], 2⟩
+        [.lit 'x', .esc 'q'] rfl (by decide) (.here _ _ rfl) rfl)⟩
+example : Admissible ['a', ' ', '"', 'x', '\\', 'q', '"', ';'] = true := by decide
+set_option maxRecDepth 8000 in
+example : ∃ rest, parseText [102] (utf8 ['a', ' ', '"', 'x', '\\', 'q', '"', ';']) =
+    .rejected (⟨[102], some (1, 5), .invalidEscape⟩ :: rest) := ⟨_, by rfl⟩
+
+/-- `a 'x` : the single quote at offset 2 is never closed -/
+example : SingleFault ['a', ' ', '\'', 'x'] .unterminatedSQuote 2 :=
+  ⟨[⟨.unq ['a'], 0⟩], [' ', '\'', 'x'], by rfl,
+    .first .top _ _ _ (by decide) (by decide) (.argEnds ⟨.unq ['a'], 0⟩ ['a'] [] rfl .nil),
+    ⟨['x'], by rfl, by rfl, by rfl⟩⟩
+example : AdmissibleScan ['a', ' ', '\'', 'x'] = true := by decide
+set_option maxRecDepth 8000 in
+example : ∃ rest, parseText [102] (utf8 ['a', ' ', '\'', 'x']) =
+    .rejected (⟨[102], some (1, 3), .missingSQuote⟩ :: rest) := ⟨_, by rfl⟩
+
+/-- `a "x` : the double quote at offset 2 is never closed -/
+example : SingleFault ['a', ' ', '"', 'x'] .unterminatedDQuote 2 :=
+  ⟨[⟨.unq ['a'], 0⟩], [' ', '"', 'x'], by rfl,
+    .first .top _ _ _ (by decide) (by decide) (.argEnds ⟨.unq ['a'], 0⟩ ['a'] [] rfl .nil),
+    ⟨['x'], by rfl, by rfl, by rfl, by rfl⟩⟩
+example : AdmissibleScan ['a', ' ', '"', 'x'] = true := by decide
+set_option maxRecDepth 8000 in
+example : ∃ rest, parseText [102] (utf8 ['a', ' ', '"', 'x']) =
+    .rejected (⟨[102], some (1, 3), .missingDQuote⟩ :: rest) := ⟨_, by rfl⟩
+
+/-- `a { b /* x` : inside a block, behind a keyword, the comment opened at offset 6 is never closed -/
+example : SingleFault ['a', ' ', '{', ' ', 'b', ' ', '/', '*', ' ', 'x'] .unterminatedComment 6 :=
+  ⟨[⟨.unq ['a'], 0⟩, ⟨.lbrace, 2⟩, ⟨.unq ['b'], 4⟩], [' ', '/', '*', ' ', 'x'], by rfl,
+    .first .top _ _ _ (by decide) (by decide)
+      (.block ⟨.unq ['a'], 0⟩ ['a'] [⟨.lbrace, 2⟩, ⟨.unq ['b'], 4⟩] none ⟨.lbrace, 2⟩ [⟨.unq ['b'], 4⟩] _ rfl (by rfl) rfl
+        (.first .block _ _ _ (by decide) (by decide) (.argEnds ⟨.unq ['b'], 4⟩ ['b'] [] rfl .nil))),
+    ⟨by rfl, 4, by rfl, by rfl⟩⟩
+example : AdmissibleScan ['a', ' ', '{', ' ', 'b', ' ', '/', '*', ' ', 'x'] = true := by decide
+set_option maxRecDepth 8000 in
+example : ∃ rest, parseText [102] (utf8 ['a', ' ', '{', ' ', 'b', ' ', '/', '*', ' ', 'x']) =
+    .rejected (⟨[102], some (1, 7), .missingCommentEnd⟩ :: rest) := ⟨_, by rfl⟩
+
+/-- a fault that is not at the beginning: line 2, behind a tab and a well-formed statement with a
+`pattern` whose backslash pair is not a fault -/
+example : SingleFault ['p', 'a', 't', 't', 'e', 'r', 'n', ' ', '"', '\\', 'd', '"', ';', '\n', '\t', 'a', ' ', 'b', ' ', '}']
+    .missingSemi 19 :=
+  ⟨[⟨.unq ['p', 'a', 't', 't', 'e', 'r', 'n'], 0⟩, ⟨.dq [.esc 'd'], 8⟩, ⟨.semi, 12⟩, ⟨.unq ['a'], 15⟩, ⟨.unq ['b'], 17⟩,
+      ⟨.rbrace, 19⟩], by rfl,
+    .later .top _ _ ⟨['p', 'a', 't', 't', 'e', 'r', 'n'], some ['\\', 'd'], 1, 1, []⟩
+      [⟨.unq ['a'], 15⟩, ⟨.unq ['b'], 17⟩, ⟨.rbrace, 19⟩] _ (by decide) (by decide) (by rfl)
+      (.first .top _ _ _ (by decide) (by decide)
+        (.noTerm ⟨.unq ['a'], 15⟩ ['a'] [⟨.unq ['b'], 17⟩, ⟨.rbrace, 19⟩] (some ['b']) ⟨.rbrace, 19⟩ [] rfl (by rfl)
+          (by decide) (by decide) (fun h => by cases h)))⟩
+set_option maxRecDepth 20000 in
+example : ∃ rest, parseText [102]
+    (utf8 ['p', 'a', 't', 't', 'e', 'r', 'n', ' ', '"', '\\', 'd', '"', ';', '\n', '\t', 'a', ' ', 'b', ' ', '}']) =
+    .rejected (⟨[102], some (2, 6), .expectedSemiOrBrace⟩ :: rest) := ⟨_, by rfl⟩
 
 end Goyang.Props.C16
